@@ -132,5 +132,8 @@ theorem line_effect_is_local (q p : Bytes) (d : SMetric) (labels : List Bytes) (
     control skeleton the model was written against (`Proofs/Skeletons.lean`, one `rfl` per function
     or clause; DESIGN.md §11.6a) -/
 theorem loader_skeletons : Skeletons.LoaderShape := Skeletons.loader_shape
+theorem f_runtime_runtime_skeletons : Skeletons.F_runtime_runtimeShape := Skeletons.f_runtime_runtime_shape
+theorem f_metrics_store_skeletons : Skeletons.F_metrics_storeShape := Skeletons.f_metrics_store_shape
+theorem f_exporter_prometheus_skeletons : Skeletons.F_exporter_prometheusShape := Skeletons.f_exporter_prometheus_shape
 
 end MtailVerif.C06
